@@ -13,7 +13,7 @@ from .smt import (T, INT, BOOL, STR, IntV, BoolV, StrV, TRUE, FALSE, And, Or, No
                   Implies, Ite, Eq, Ne, Add, Sub, Lt, Le, Gt, Ge, Len, Concat)
 from .vals import (Undecided, V, VInt, VBool, VStr, VNone, NONE, VVal, VSeq, VTuple,
                    VRef, VFunc, VPy, VBound, VExc, Raised, HList, HPyList, HDict,
-                   HSet, HInst, parse_type, sort_of, wrap)
+                   HSet, HInst, HObjList, parse_type, sort_of, wrap)
 from .symexec import Engine, State, VOptSym, UNBOUND, repo_root
 from . import contracts as C
 
@@ -293,12 +293,22 @@ class Exec(Engine):
         fid = s.new_frame(s.cur)
         s.cur = fid
         bind(s)
-        conds = [self.truthy(self.ev1(c, s), s) for c in comp.ifs]
-        body = self.truthy(self.ev1(gen.elt, s), s)
+        self.pat_stack.append((var, []))
+        try:
+            conds = [self.truthy(self.ev1(c, s), s) for c in comp.ifs]
+            body = self.truthy(self.ev1(gen.elt, s), s)
+        finally:
+            _, cands = self.pat_stack.pop()
         g = And(guard, *conds)
+        seen = set()
+        pats = []
+        for t in cands:
+            if t.s not in seen:
+                seen.add(t.s)
+                pats.append([t])
         if kind == 'all':
-            return [(VBool(smt.ForAll([var], Implies(g, body))), st)]
-        return [(VBool(smt.Exists([var], And(g, body))), st)]
+            return [(VBool(smt.ForAll([var], Implies(g, body), patterns=pats)), st)]
+        return [(VBool(smt.Exists([var], And(g, body), patterns=pats)), st)]
 
     def symbolic_domain(self, comp, st):
         """(bound var, guard, binder) for `for x in range(a, b)` / `for x in seq` in pure mode."""
@@ -430,7 +440,7 @@ class Exec(Engine):
             return self.call_model('str.' + name, [recv] + args, kwargs, st, node)
         if isinstance(recv, VRef):
             o = st.heap[recv.loc]
-            if isinstance(o, (HList, HPyList)):
+            if isinstance(o, (HList, HPyList, HObjList)):
                 return self.call_model('list.' + name, [recv] + args, kwargs, st, node)
             if isinstance(o, HDict):
                 return self.call_model('dict.' + name, [recv] + args, kwargs, st, node)
@@ -605,6 +615,8 @@ class Exec(Engine):
             # exceptional outcomes
             normal_guard = []
             for clsname, when in c.raises.items():
+                maybe = clsname.endswith('?')
+                clsname = clsname.rstrip('?')
                 star = clsname.endswith('*')
                 base = clsname.rstrip('*')
                 if base == 'LIVE':
@@ -615,7 +627,7 @@ class Exec(Engine):
                         raise Undecided('unknown exception class %s in contract %s' % (base, c.qualname))
                     classes = [cls] + (self.subclasses_of(cls) if star else [])
                 cond = TRUE if when is None else self.clause(when, st, bound, old=pre_state)
-                if when is not None:
+                if when is not None and not maybe:
                     normal_guard.append(Not(cond))
                 for cls in classes:
                     s = st.copy()
@@ -831,6 +843,12 @@ class Exec(Engine):
         def go(v, s):
             for t in node.targets:
                 self.assign_target(t, v, s, node)
+                if isinstance(t, ast.Name) and self.cur_contract is not None and s.depth == 0 and not self.pure:
+                    # intermediate facts the contract attaches to an assignment: proved here, then used
+                    for name, text in self.cur_contract.opts.get('facts_after', {}).get(t.id, ()):
+                        g = self.inv_clause(text, s, self.entry_state)
+                        self.oblige('fact', '%s@%s' % (name, t.id), s, g, node)
+                        s.assume(g)
             return [('normal', None, s)]
         return self._each(self.ev(node.value, st), go)
 
@@ -980,8 +998,55 @@ class Exec(Engine):
                 continue
             cond = self.truthy(c, s)
             for flag, s2 in self.fork_on(s, cond):
+                self.narrow(node.test, flag, s2)
                 out.extend(self.run_block(node.body if flag else node.orelse, s2))
         return out
+
+    def narrow(self, test, flag, st):
+        """Refine Optional-typed locals after a branch on `x is None` / `x` / `not x`."""
+        if isinstance(test, ast.UnaryOp) and isinstance(test.op, ast.Not):
+            return self.narrow(test.operand, not flag, st)
+        name = None
+        is_none = None
+        if isinstance(test, ast.Compare) and len(test.ops) == 1 and isinstance(test.left, ast.Name) \
+                and isinstance(test.comparators[0], ast.Constant) and test.comparators[0].value is None:
+            if isinstance(test.ops[0], ast.Is):
+                name, is_none = test.left.id, flag
+            elif isinstance(test.ops[0], ast.IsNot):
+                name, is_none = test.left.id, not flag
+        elif isinstance(test, ast.Name) and flag:
+            name, is_none = test.id, False
+        elif isinstance(test, ast.BoolOp) and isinstance(test.op, ast.And) and flag:
+            for v in test.values:
+                self.narrow(v, True, st)
+            return
+        elif isinstance(test, ast.BoolOp) and isinstance(test.op, ast.Or) and not flag:
+            for v in test.values:
+                self.narrow(v, False, st)
+            return
+        if name is None:
+            # attribute of a local instance: `if self.want_lines:` / `self.x is None`
+            attr = None
+            if isinstance(test, ast.Attribute) and isinstance(test.value, ast.Name) and flag:
+                attr, is_none = test, False
+            elif isinstance(test, ast.Compare) and len(test.ops) == 1 and isinstance(test.left, ast.Attribute) \
+                    and isinstance(test.left.value, ast.Name) and isinstance(test.comparators[0], ast.Constant) \
+                    and test.comparators[0].value is None and isinstance(test.ops[0], (ast.Is, ast.IsNot)):
+                attr = test.left
+                is_none = flag if isinstance(test.ops[0], ast.Is) else not flag
+            if attr is not None:
+                owner = st.lookup(attr.value.id)
+                if isinstance(owner, VRef) and isinstance(st.heap.get(owner.loc), HInst):
+                    o = st.heap[owner.loc]
+                    v = o.fields.get(attr.attr)
+                    if isinstance(v, VOptSym):
+                        f = dict(o.fields)
+                        f[attr.attr] = NONE if is_none else v.val
+                        st.heap[owner.loc] = HInst(o.cls, f)
+            return
+        v = st.frames[st.cur].get(name)
+        if isinstance(v, VOptSym):
+            st.frames[st.cur][name] = NONE if is_none else v.val
 
     def exec_Assert(self, node, st):
         out = []
@@ -1252,7 +1317,16 @@ class Exec(Engine):
         names = assigned_names(body)
         if isinstance(node, ast.For):
             names |= assigned_names([ast.Assign(targets=[node.target], value=ast.Constant(0))])
-        for name in sorted(names):
+        for name in sorted(names | set(spec.types)):
+            if name in spec.types:
+                tyname = spec.types[name]
+                if tyname.startswith('objlist['):
+                    n = self.ctx.fresh(name + '_len', INT)
+                    st.assume(Ge(n, IntV(0)))
+                    st.frames[st.cur][name] = st.alloc(HObjList(n, self.exc_class(tyname[8:-1])))
+                else:
+                    st.frames[st.cur][name] = self.fresh(parse_type(tyname), name, st)
+                continue
             cur = st.frames[st.cur].get(name)
             if cur is None:
                 continue
@@ -1265,7 +1339,7 @@ class Exec(Engine):
                 n = ast.parse(expr, mode='eval').body
             except SyntaxError:
                 continue
-            if isinstance(n, ast.Name) and n.id in names:
+            if isinstance(n, ast.Name) and (n.id in names or n.id in spec.types):
                 continue    # rebinding already produced a fresh object
             try:
                 if isinstance(n, ast.Attribute):
@@ -1467,7 +1541,7 @@ class Exec(Engine):
                     for name, text in c.ensures:
                         self.oblige('post', name, s, self.clause(text, s, b, old=entry), fnode)
                     for clsname, when in c.raises.items():
-                        if when is not None:
+                        if when is not None and not clsname.endswith('?'):
                             self.oblige('post', 'no-%s' % clsname.rstrip('*'), s,
                                         Not(self.clause(when, s, b, old=entry)), fnode)
                 elif kind == 'raise':
@@ -1481,7 +1555,7 @@ class Exec(Engine):
         b['exc'] = exc
         matched = False
         for clsname, when in c.raises.items():
-            base = clsname.rstrip('*')
+            base = clsname.rstrip('*?')
             if base == 'LIVE':
                 ok = exc.tag == 'live'
             else:
@@ -1490,7 +1564,7 @@ class Exec(Engine):
             if ok:
                 matched = True
                 g = TRUE if when is None else self.clause(when, s, b, old=entry)
-                self.oblige('raises', clsname.rstrip('*'), s, g, fnode,
+                self.oblige('raises', clsname.rstrip('*?'), s, g, fnode,
                             note='exception %r escapes' % (exc,))
                 break
         if not matched:
@@ -1566,6 +1640,13 @@ class Exec(Engine):
             raise Undecided('unknown hint %r' % h)
 
     lemmas_used = set()
+    pat_stack = []
+
+    def note_pattern(self, t, idx):
+        """Remember an element access indexed exactly by an enclosing bound variable (trigger candidate)."""
+        for var, cands in self.pat_stack:
+            if idx.s == var.s:
+                cands.append(t)
 
     def real_function(self, c):
         obj = self.module
@@ -1581,7 +1662,13 @@ class Exec(Engine):
         return obj
 
 
-ALWAYS_INLINE = set()
+ALWAYS_INLINE = {
+    'xdoctest.doctest_part:DoctestPart.want',
+    'xdoctest.doctest_part:DoctestPart.n_lines',
+    'xdoctest.doctest_part:DoctestPart.n_exec_lines',
+    'xdoctest.doctest_part:DoctestPart.n_want_lines',
+    'xdoctest.doctest_part:DoctestPart.source',
+}
 
 
 def StrV_(k):
